@@ -8,14 +8,94 @@ TASK = "task"
 RULE = ("programs with all flow kinds, 1-3 stratifications (plain / age / strain, full / partial), several adjustment declarations per flow "
         "with overlapping source/dest strata filters, Multiply / bare number / Overwrite / None, parameters and time functions, flows added "
         "before and after stratifications; observables: the multiset of flow copies (kind, name, source, destination) and every copy's "
-        "effective weight (flow rate at states with positive populations); non-trivial when >= 1 stratification and >= 1 adjustment or split")
+        "effective weight (flow rate at states with positive populations); plus scenario programs around absolute / import flows whose source only, "
+        "destination only or both ends are stratified (plain and strain stratifications, with and without adjustment declarations); non-trivial when >= 1 stratification and >= 1 adjustment or split")
 TRUSTED = ["Spec.copies / Spec.copyAdjustment in lean/Summer/Spec/Structure.lean are the reading of the documented rules"]
 ASSUMPTIONS = ["an absolute flow that carries a user adjustment is additionally shared 1/k between its k copies, as the code does (the property "
                "only prescribes the no-user-adjustment case)"]
 
 def payloads(tier, seed):
     n = 70 if tier == "quick" else 1500
-    return [{"seed": seed, "index": i} for i in range(n)]
+    return [{"seed": seed, "index": i} for i in range(n)] + [{"seed": seed, "index": i, "mode": "abs"} for i in range(24 if tier == "quick" else 400)]
+
+
+def abs_program(r):
+    """absolute (and import / transition) flows through 1-3 stratifications that stratify only the source, only the destination or both,
+    of plain or strain flavour, with and without adjustment declarations for the flow"""
+    ops = [{"op": "model", "t0": "0", "t1": "2", "dt": "1", "comps": ["A", "B", "C"], "inf": ["B"]},
+           {"op": "init_pop", "dist": [["A", {"c": "80"}], ["B", {"c": "15"}], ["C", {"c": "5"}]]}]
+    params = {}
+    def rate():
+        z = r.random()
+        if z < 0.5: return {"c": r.choice(["12", "6", "3/2", "24"])}
+        k = f"p{len(params)}"; params[k] = r.choice(["12/1", "5/1", "9/2"]); return {"p": k}
+    flows = [("abs0", "absolute", "A", "B"), ("abs1", "absolute", r.choice(["B", "C"]), r.choice(["A", "C"])), ("tr2", "transition", "B", "C")]
+    for nm, kind, src, dst in flows:
+        ops.append({"op": "flow", "kind": kind, "name": nm, "src": src, "dst": dst, "param": rate()})
+    if r.random() < 0.5:
+        ops.append({"op": "flow", "kind": "import", "name": "imp3", "dst": "A", "param": rate(), "split": r.random() < 0.5})
+        flows.append(("imp3", "import", None, "A"))
+    used_strain = False
+    pool = [("loc", ["u", "v", "w"]), ("risk", ["lo", "hi"]), ("vac", ["n", "y", "z"])]
+    r.shuffle(pool)
+    feat = {}
+    for si in range(r.randint(1, 3)):
+        strain = (not used_strain) and r.random() < 0.4
+        if strain:
+            name, strata = "strain", ["s1", "s2"][: r.randint(1, 2)] if r.random() < 0.2 else ["s1", "s2"]
+            used_strain = True
+        else:
+            name, strata = pool[si]
+            strata = strata[: r.randint(2, len(strata))]
+        comps = r.choice([["B"], ["A"], ["C"], ["A", "B"], ["B", "C"], ["A", "B", "C"]])
+        op = {"op": "stratify", "kind": "strain" if strain else "plain", "name": name, "strata": strata, "comps": comps}
+        fadj = []
+        for nm, kind, src, dst in flows:
+            if r.random() < 0.5:
+                adjs = []
+                for s_ in strata:
+                    z = r.random()
+                    if z < 0.3: adjs.append([s_, None])
+                    elif z < 0.7: adjs.append([s_, ["mul", {"c": r.choice(["2", "1/2", "3"])}]])
+                    else: adjs.append([s_, ["ovr", rate()]])
+                fadj.append({"flow": nm, "adjs": adjs})
+                feat["adj:" + kind] = feat.get("adj:" + kind, 0) + 1
+        if fadj: op["flow_adj"] = fadj
+        feat[("strain" if strain else "plain") + ":" + "".join(comps)] = 1
+        ops.append(op)
+    return {"build": ops, "params": params, "meta": {"feat": feat, "strats": [1], "n_comps": None, "t0": "0", "dt": "1", "nsteps": 2}}
+
+
+def abs_task(W, payload):
+    r = random.Random(f"C04abs:{payload['seed']}:{payload['index']}")
+    prog = abs_program(r)
+    S = fresh_session(W)
+    out = {"evals": 0, "cases": [], "fails": [], "diffs": [], "feat": dict(prog["meta"]["feat"])}
+    out["feat"]["mode:abs_scenarios"] = 1
+    if not S.build(prog["build"], dump_each=False):
+        bump(out, "build_rejected")
+        return out
+    pyd = S.I.apply({"op": "dump"})["dump"]
+    lnd = S.L.send({"op": "dump"})["dump"]
+    before = len(S.log)
+    S.dump()
+    out["evals"] += 1
+    a = collections.Counter(key(f) for f in pyd["flows"]); b = collections.Counter(key(f) for f in lnd["flows"])
+    if a != b:
+        out["diffs"].append({"stage": "S1", "what": "multiset of flow copies", "impl_only": [list(map(str, k)) for k in (a - b)], "model_only": [list(map(str, k)) for k in (b - a)],
+                             "prescribed": True, "task": {"module": "c04", "fn": "task", "payload": payload}, "program": prog["build"]})
+    for d in S.log[before:]:
+        d = dict(d); d["prescribed"] = False; d["task"] = {"module": "c04", "fn": "task", "payload": payload}; d["program"] = prog["build"]
+        out["diffs"].append(d)
+    n = len(pyd["comps"])
+    x = [q(Fr(r.randint(1, 40))) for _ in range(n)]
+    before = len(S.log)
+    py, ln = S.one_step(prog["params"], "1/2", x, stages=("S2", "S4"))
+    out["evals"] += 1
+    if py.get("ok"):
+        out["cases"].append(prog_hash(prog["build"]) + ":abs")
+    tag_diffs(out, S, before, "c04", payload, prog, ("S2", "S4"))
+    return out
 
 def key(f):
     def c(x):
@@ -23,6 +103,8 @@ def key(f):
     return (f["kind"], f["name"], c(f["src"]), c(f["dst"]))
 
 def task(W, payload):
+    if payload.get("mode") == "abs":
+        return abs_task(W, payload)
     r = random.Random(f"C04:{payload['seed']}:{payload['index']}")
     if payload["index"] % 3 == 2:
         # absolute flows under partial / strain stratifications with adjustments, and adjustment chains across stratifications
